@@ -34,7 +34,7 @@ const hcDomain = "hc.probe.test."
 
 var allStates = []string{
 	"up", "up", "up", "silent", "refuse", "close", "wrong-id", "wrong-name", "wrong-type", "two-questions",
-	"tc-then-tcp", "garbage", "short", "cut", "ancount", "servfail", "nxdomain", "dup", "error-without-question",
+	"tc-then-tcp", "garbage", "short", "cut", "ancount", "servfail", "nxdomain", "dup", "error-without-question", "wrong-id-then-tcp-closes",
 }
 
 func classOf(state string) string {
@@ -48,7 +48,9 @@ func classOf(state string) string {
 		return "valid-empty"
 	case "servfail", "nxdomain":
 		return "valid-rcode"
-	case "silent", "refuse", "close":
+	case "silent", "refuse", "close", "wrong-id-then-tcp-closes":
+		// (The last one: the datagram is rejected, the retry over TCP ends
+		// with a network error, and that is what the exchange fails with.)
 		return "netfail"
 	default:
 		return "invalid"
@@ -167,6 +169,16 @@ func (u *upstream) reply(req *dns.Msg, tr string) (raw [][]byte, closeAfter bool
 	case "close":
 		return nil, true
 	case "wrong-id":
+		m := good()
+		m.Id ^= 0x5555
+
+		return [][]byte{pack(m)}, false
+	case "wrong-id-then-tcp-closes":
+		// Two faults in a row: a datagram that answers something else, and
+		// a stream that ends before any reply.
+		if tr == "tcp" {
+			return nil, true
+		}
 		m := good()
 		m.Id ^= 0x5555
 
@@ -509,7 +521,7 @@ func run(s *kernel.Sim, prop, cfg string) {
 
 	states := allStates
 	if prop == "C06" {
-		states = []string{"up", "up", "up", "garbage", "short", "cut", "cut", "ancount", "wrong-name", "two-questions", "tc-then-tcp", "dup"}
+		states = []string{"up", "up", "up", "garbage", "short", "cut", "cut", "ancount", "wrong-name", "two-questions", "tc-then-tcp", "dup", "wrong-id-then-tcp-closes"}
 	}
 
 	ctx := dnsserver.ContextWithServerInfo(context.Background(), &dnsserver.ServerInfo{Name: "sim", Addr: "x", Proto: dnsserver.ProtoDNS})
